@@ -1,6 +1,7 @@
 package main
 
 import (
+	"sort"
 	"fmt"
 	"go/token"
 	"go/types"
@@ -513,16 +514,28 @@ func (fx *Fx) applyContract(st *State, ct *Contract, fn *ssa.Function, args []Va
 		fx.bindResults(vars, res, resT, fn, ct)
 	}
 	post := &Env{fx: fx, st: st, old: old, vars: vars}
-	freshLocals := map[string]*Term{}
-	post.callFresh = func(key string) *Term {
-		if l, ok := freshLocals[key]; ok {
-			return l
+	var known []*Term // objects the caller holds at the call (its locals and the object leaves of its frames)
+	knownDone := false
+	post.callFresh = func(obj *Term) *Term {
+		if !knownDone {
+			knownDone = true
+			ids := make([]int, 0, len(st.Locals))
+			for id := range st.Locals {
+				ids = append(ids, id)
+			}
+			sort.Ints(ids)
+			for _, id := range ids {
+				known = append(known, LocalObj(id))
+			}
+			known = append(known, fx.objectLeaves(st)...)
 		}
-		lo := fx.newLocal(st, false, "fresh:"+shortCallee(name))
-		st.Escaped[lo.ID] = true
-		l := LocalObj(lo.ID)
-		freshLocals[key] = l
-		return l
+		c := fx.P.isFresh(fx, obj)
+		for _, k := range known {
+			if k != obj {
+				c = And(c, Not(Eq(obj, k)))
+			}
+		}
+		return c
 	}
 	for _, ff := range ct.FreshFields {
 		// (fresh-field <pointer> <field>): the field holds a reference to an object allocated by the callee
